@@ -40,7 +40,7 @@ RULE = ("case = (likelihood kind [Gaussian unit/diag callables/diag array/std on
         "scalar/field dof, NDVariableCovarianceGaussian covariance/precision, Categorical axis -1/0], data shape "
         "[array, batched 2 rows, pytree Vector], composition [plain, amend exp, amend matrix(+link), amend pytree "
         "split, freeze x, freeze y, amend twice, LikelihoodSum of every unordered pair of 8 base kinds, sum + "
-        "freeze], point of a 4-value grid per latent coordinate (full product up to 16|256 points else 4 rotations "
+        "freeze, every association shape of sums of 3 and 4 terms], point of a 4-value grid per latent coordinate (full product up to 16|256 points else 4 rotations "
         "+ all single-coordinate deviations)); every case enumerates ALL data outcomes / exact quadrature nodes and "
         "evaluates energy, gradient, dense metric, left/right square root and transformation Jacobian on each; "
         "non-trivial = more than one data outcome, non-identity metric")
@@ -71,6 +71,11 @@ KINDS = {
 BASE = ["gauss_diag", "gauss_cplx", "studentt", "poissonian", "vcg_real", "vcst", "ndvcg_cov", "categorical"]
 WRAPS = ["plain", "exp", "matrix", "split", "freeze_x", "freeze_y", "amend2"]
 NCAT = 3
+# association shapes of LikelihoodSums of 3 and 4 terms: (a+b)+c flattens (LikelihoodSum.__add__), a+(b+c) nests
+SUMTREES = {"sum3l": ((0, 1), 2), "sum3r": (0, (1, 2)), "sum4ll": (((0, 1), 2), 3), "sum4lm": ((0, (1, 2)), 3),
+            "sum4bal": ((0, 1), (2, 3)), "sum4rm": (0, ((1, 2), 3)), "sum4rr": (0, (1, (2, 3)))}
+SUMKINDS = {3: [["gauss_diag", "studentt", "poissonian"], ["vcg_real", "gauss_cplx", "vcst"]],
+            4: [["gauss_diag", "studentt", "vcg_real", "vcst"]]}
 
 
 def is_cplx(kind):
@@ -160,7 +165,10 @@ def cases(tier, seed):
         if tier == "thorough" or a in ("gauss_diag", "poissonian", "vcg_real", "categorical"):
             structs.append(([a, "gauss_diag"], "vec", "sum_freeze_x"))
             structs.append(([a, "studentt"], "vec", "sum_freeze_y"))
-    worder = WRAPS + ["sum", "sum_freeze_x", "sum_freeze_y"]
+    for w, tree in SUMTREES.items():
+        for ks in SUMKINDS[int(w[3])]:
+            structs.append((ks, "vec", w))
+    worder = WRAPS + ["sum", "sum_freeze_x", "sum_freeze_y"] + list(SUMTREES)
     structs.sort(key=lambda s: (worder.index(s[2]), SHAPES.index(s[1]), len(s[0])))
     for kinds, shape, wrap in structs:
         n = 1 if wrap.startswith("sum") else 2
@@ -538,6 +546,10 @@ def build_struct(kinds, shape, wrap, seed):
                 else:
                     lh = lh.amend(fwd)
                 lhs.append(lh)
+            if wrap in SUMTREES:
+                def build(t):
+                    return lhs[t] if isinstance(t, int) else build(t[0]) + build(t[1])
+                return build(SUMTREES[wrap])
             return lhs[0] if len(lhs) == 1 else lhs[0] + lhs[1]
         st.make_lh = make_lh
         if wrap.endswith("freeze_x"):
@@ -582,6 +594,10 @@ def xi_from_point(st, pt):
 _CACHE = {}
 
 
+class StructureError(Exception):
+    pass
+
+
 def get_theta(st):
     import jax
     key = ("theta", "+".join(st.kinds), st.shape, st.wrap, st.seed)
@@ -609,7 +625,8 @@ def get_eval(st, datas0, xi_lib):
     for dl in dleaves:
         hits = [i for i, l in enumerate(leaves) if l is dl]
         if len(hits) != 1:
-            raise AssertionError("harness: data leaf found %d times in the likelihood pytree" % len(hits))
+            raise StructureError("the data of a summand occurs %d times in the composed likelihood pytree "
+                                 "(a term was duplicated or dropped)" % len(hits))
         dpos.append(hits[0])
     fpos = None
     if st.frozen is not None:
@@ -880,7 +897,11 @@ def run_case(case):
     xi0 = xi_from_point(st, [(i + 1) % 4 for i in case["pt"]])
     if st.frozen is not None:           # the second point differs in the liquid coordinates only
         xi0 = np.array([xi0[j] if j in st.sel else xi[j] for j in range(st.D)])
-    fails, info = check_point(st, xi, xi0)
+    try:
+        fails, info = check_point(st, xi, xi0)
+    except StructureError as e:
+        return bad("%s %s/%s: %s" % ("+".join(kinds), shape, wrap, e),
+                   finding_key="%s|composition:summand-count|only-via:%s" % ("+".join(libname(k) for k in kinds), wrap))
     stats = dict(data_outcomes=info.get("outcomes", 0), lib_evaluations=info.get("outcomes", 0))
     if fails:
         clause, wh, msg = fails[0]
